@@ -45,8 +45,8 @@ CORPUS = [
     ("C14", "violation", "SetACKNoDelay: write after Unlock", "sess.go",
      "\ts.mu.Lock()\n\ts.ackNoDelay = nodelay\n\ts.mu.Unlock()", "\ts.mu.Lock()\n\ts.mu.Unlock()\n\ts.ackNoDelay = nodelay"),
     ("C14", "violation", "blockCrypt.Decrypt under the encryption mutex", "crypt.go",
-     "\tc.decMu.Lock()\n\tdecrypt(c.block, dst, src, c.decbuf)\n\tc.decMu.Unlock()",
-     "\tc.encMu.Lock()\n\tdecrypt(c.block, dst, src, c.decbuf)\n\tc.encMu.Unlock()"),
+     "\tc.decMu.Lock()\n\tdecrypt(c.decBlock, dst, src, c.decbuf)\n\tc.decMu.Unlock()",
+     "\tc.encMu.Lock()\n\tdecrypt(c.decBlock, dst, src, c.decbuf)\n\tc.encMu.Unlock()"),
     ("C14", "violation", "session table written under a read lock", "sess.go",
      "\tl.sessionLock.Lock()\n\tl.sessions[addr.String()] = s\n\tl.sessionLock.Unlock()",
      "\tl.sessionLock.RLock()\n\tl.sessions[addr.String()] = s\n\tl.sessionLock.RUnlock()"),
